@@ -58,11 +58,13 @@ type node struct {
 	// expStart[i] is the index (in moves) of the chunk that started expect[i]; inflStart the same for messages in flight
 	expStart  []int
 	inflStart map[uint32]int
+	// many is set on traces of family M (many.go): the compact case the trace was built from
+	many *mInfo
 }
 
 func (n *node) clone() *node {
 	c := &node{ck: n.ck.Clone(), moves: append([]Move{}, n.moves...), wire: append([]byte{}, n.wire...), expect: append([]rtmpref.Msg{}, n.expect...), infl: map[uint32]rtmpref.Msg{}, nmsg: n.nmsg,
-		expStart: append([]int{}, n.expStart...), inflStart: map[uint32]int{}}
+		expStart: append([]int{}, n.expStart...), inflStart: map[uint32]int{}, many: n.many}
 	for k, v := range n.infl {
 		c.infl[k] = v
 	}
@@ -79,6 +81,12 @@ func newNode() *node {
 // apply performs a legal move (start/cont) and returns the child node.
 func (n *node) apply(m Move) *node {
 	c := n.clone()
+	c.push(m)
+	return c
+}
+
+// push performs a legal move (start/cont) in place (family M builds its long opening phases with it).
+func (c *node) push(m Move) {
 	c.moves = append(c.moves, m)
 	var ch rtmpref.Chunk
 	switch m.K {
@@ -120,7 +128,6 @@ func (n *node) apply(m Move) *node {
 			c.ck.ChunkSize = uint32(msg.Payload[0])<<24 | uint32(msg.Payload[1])<<16 | uint32(msg.Payload[2])<<8 | uint32(msg.Payload[3])
 		}
 	}
-	return c
 }
 
 // ---------------------------------------------------------------- evaluation
@@ -167,7 +174,7 @@ func readAll(wire []byte, one bool) (msgs []*rtmp.Message, err error, panicked s
 				return
 			}
 			msgs = append(msgs, m)
-			if len(msgs) > 64 {
+			if len(msgs) > 64+len(wire) { // (every message takes at least one byte of the wire)
 				err = fmt.Errorf("runaway")
 				return
 			}
@@ -246,7 +253,13 @@ func (h *harness) evaluate(n *node, one bool) bool {
 	}
 	msgs, err, pan := readAll(n.wire, one)
 	cs := map[string]interface{}{"moves": n.moves, "one_byte": one}
+	if n.many != nil {
+		cs = map[string]interface{}{"many": n.many.Case, "one_byte": one}
+	}
 	desc := func() string {
+		if n.many != nil {
+			return n.many.describe(n, n.wire)
+		}
 		var s []string
 		for _, m := range n.moves {
 			s = append(s, m.String())
@@ -254,6 +267,16 @@ func (h *harness) evaluate(n *node, one bool) bool {
 		return "trace [" + strings.Join(s, " ") + "] wire " + hl.Hex(n.wire)
 	}
 	feats := features(n.moves)
+	if n.many != nil {
+		// (the basic-header form is part of every M layout and not what distinguishes a deviating M trace)
+		var f []string
+		for _, k := range feats {
+			if k != "3-byte-basic-header" {
+				f = append(f, k)
+			}
+		}
+		feats = f
+	}
 	fk := strings.Join(feats, "+")
 	if fk == "" {
 		fk = "plain"
@@ -299,7 +322,11 @@ func (h *harness) evaluate(n *node, one bool) bool {
 		}
 	}
 	if bad == "" {
-		c.Nontrivial(fmt.Sprint(n.moves))
+		if n.many != nil {
+			c.Nontrivial(n.many.key(one))
+		} else {
+			c.Nontrivial(fmt.Sprint(n.moves))
+		}
 		c.Distinct("states", fmt.Sprintf("%d/%v/%d", n.ck.ChunkSize, n.ck.AnyInFlight(), len(n.expect))+fk)
 		return true
 	}
@@ -310,7 +337,9 @@ func (h *harness) evaluate(n *node, one bool) bool {
 	}
 	// classify against the known reading "extended timestamp field is always absolute"
 	key := "decode/" + fk
-	if len(feats) == 0 {
+	if len(feats) == 0 && n.many != nil {
+		key = "decode/" + n.many.feature(n, msgs)
+	} else if len(feats) == 0 {
 		f, at := plainFeature(n)
 		if at >= 0 && at+1 < len(n.moves) {
 			// the reader already deviates on a shorter prefix of this trace: report that prefix (same root cause, smaller case)
@@ -336,6 +365,10 @@ func (h *harness) evaluate(n *node, one bool) bool {
 		}
 		if !match {
 			key = "decode-other/" + fk
+			if n.many != nil {
+				// (not the known extended-timestamp reading: named after the chunk of the many-chunk-streams trace it happens at)
+				key = "decode/" + n.many.feature(n, msgs)
+			}
 		}
 	}
 	c.Violation(key, bad+"; "+desc(), cs)
@@ -365,11 +398,17 @@ func (h *harness) evaluateNeg(n *node, bad Move, accept bool) {
 	msgs, err, pan := readAll(wire, false)
 	moves := append(append([]Move{}, n.moves...), bad)
 	cs := map[string]interface{}{"moves": moves, "neg": true}
-	var s []string
-	for _, m := range moves {
-		s = append(s, m.String())
+	var desc string
+	if n.many != nil {
+		cs = map[string]interface{}{"many": n.many.Case, "neg": true, "bad": bad}
+		desc = n.many.describe(n, wire) + "; then the illegal chunk " + bad.String() + " = " + hl.Hex(ch.Bytes()) + " and one legal 1-byte message on chunk stream 9"
+	} else {
+		var s []string
+		for _, m := range moves {
+			s = append(s, m.String())
+		}
+		desc = "trace [" + strings.Join(s, " ") + "] wire " + hl.Hex(wire)
 	}
-	desc := "trace [" + strings.Join(s, " ") + "] wire " + hl.Hex(wire)
 	if pan != "" {
 		c.Violation("panic/"+strings.SplitN(pan, ":", 2)[0], "reader panicked: "+pan+"; "+desc, cs)
 		return
@@ -385,7 +424,11 @@ func (h *harness) evaluateNeg(n *node, bad Move, accept bool) {
 			c.Violation("librtmp-ping-misdecoded", why+"; "+desc, cs)
 			return
 		}
-		c.Nontrivial("neg-accept" + fmt.Sprint(moves))
+		if n.many != nil {
+			c.Nontrivial("neg-accept" + n.many.key(false) + bad.String())
+		} else {
+			c.Nontrivial("neg-accept" + fmt.Sprint(moves))
+		}
 		return
 	}
 	for i, m := range msgs {
@@ -407,7 +450,11 @@ func (h *harness) evaluateNeg(n *node, bad Move, accept bool) {
 		c.Violation("illegal-not-rejected/"+bad.K+fmt.Sprintf("-fmt%d", bad.Fmt), fmt.Sprintf("the illegal chunk (%s) did not produce an error: the reader only stopped at the end of the stream (%v); %s", bad.K, err, desc), cs)
 		return
 	}
-	c.Nontrivial("neg" + fmt.Sprint(moves))
+	if n.many != nil {
+		c.Nontrivial("neg" + n.many.key(false) + bad.String())
+	} else {
+		c.Nontrivial("neg" + fmt.Sprint(moves))
+	}
 	c.Distinct("states", "neg/"+bad.K+fmt.Sprint(bad.Fmt))
 }
 
@@ -594,7 +641,7 @@ func genL(n *node) []Move {
 }
 
 func run(c *hl.Ctx) {
-	c.Rule("E2: depth-first enumeration of every trace of <= N chunks of the specification chunker (all legal header choices), family by family: T = header type {0,1,2,3} x timestamp/delta class (8 values around 0, 0xFFFFFF, 2^31, 2^32-1) on one chunk stream (cs 3 and cs 2); H = header-field inheritance (type, length, stream id) with fmt 1/2/3 where legal; B = chunk stream ids {2,3,35,63,64,65,67,319,320,321,65599} (pairs that alias under a dropped id bit or a dropped header byte) x every basic-header form; I = chunk-level interleaving of 2 chunk streams + Set Chunk Size {2,128,4096} on cs 2; L = length classes {1,c-1,c,c+1,2c,2c+1} x chunk sizes {1,2,127,128,129,4096,65536}; W = timestamp accumulation over 1..4 (thorough 1..5) message starts on one chunk stream (cs 7): type 0 with timestamps {0, 1, 0xFFFFFE, 0xFFFFFF, 2^31-2*0xFFFFFE, 2^31-300, 2^31-2, 2^31-1, 2^31} x type 1 and type 2 with plain deltas {0, 1, 0x80, 0x100, 0xFFFFFE} and extended deltas {0xFFFFFF, 0x1000000, 2^31-300} x type 3 message start (delta re-added, repeatable), all messages of a trace single-chunk (1 byte) or multi-chunk (129 bytes = 2 chunks; thorough also 300 bytes = 3 chunks) with the type-3 continuation chunks in between, so that 0xFFFFFF and 2^31 are crossed by every header type after an extended and after a plain previous header (quick: <=4 starts, single-chunk - also with 1-byte reads - and 2-chunk; thorough: <=5 starts single-chunk with 1-byte reads, <=5 starts 2-chunk, <=4 starts 3-chunk); Z = zero-length messages and header compression: on 1..3 subject chunk streams (cs 5, cs 2, cs 70 in 2-byte form) every message start takes its length from {0, 1, c, c+1, 2c} (c = chunk size in force: 128, thorough also 2 after a Set Chunk Size prefix) at every position including the first message of the chunk stream, with every header type legal there (type 0 always; type 1 with any length once the chunk stream has carried a chunk; type 2 and 3 when the length repeats - after an empty message a type-2/3 start is again an empty message), the subjects' chunks interleaved with each other and with the three chunks of one 2c+1-byte message of a background chunk stream (cs 11; thorough also cs 12) (quick: 1 subject <=4 chunks with 1-byte reads and illegal continuations for each of the 3 subjects, each subject alone <=5 chunks, 2 subjects (cs 5 + cs 70, cs 5 + cs 2) <=4 chunks, 3 subjects <=3 chunks; thorough: 1 subject <=5 chunks with 1-byte reads and illegal continuations, 1 subject + 2 background streams <=6 chunks, 2 subjects <=5 chunks, 3 subjects <=4 chunks, chunk size 2 with 1 subject <=5 and 2 subjects <=4 chunks); a deviating Z trace is keyed decode/<what the first chunk the reader deviates at is: fmtN-start-after-only-empty-messages, fmtN-start-after-empty-message, empty-message-fmtN, else plain>. Every trace prefix is fed to a fresh real Protocol (whole and 1-byte reads) and its ReadMessage sequence compared with the chunker's bookkeeping (timestamps after reduction to 31 bits; a returned timestamp >= 2^31 is reported under timestamp-31bit/<header type of that message's first chunk>; a trace that uses an extended delta or a type-3 message start after an extended header and deviates is compared with the reference de-chunker in its documented extended-field-is-absolute reading: equal = the known finding decode/<features>, different = decode-other/<features>); at every node each illegal continuation (fmt 0 / changed length inside an unfinished message, fresh chunk stream with fmt 1/2/3, and the librtmp cs-2 fmt-1 form which must be accepted) is appended. state = abstract chunker state; transition = one chunk.")
+	c.Rule("E2: depth-first enumeration of every trace of <= N chunks of the specification chunker (all legal header choices), family by family: T = header type {0,1,2,3} x timestamp/delta class (8 values around 0, 0xFFFFFF, 2^31, 2^32-1) on one chunk stream (cs 3 and cs 2); H = header-field inheritance (type, length, stream id) with fmt 1/2/3 where legal; B = chunk stream ids {2,3,35,63,64,65,67,319,320,321,65599} (pairs that alias under a dropped id bit or a dropped header byte) x every basic-header form; I = chunk-level interleaving of 2 chunk streams + Set Chunk Size {2,128,4096} on cs 2; L = length classes {1,c-1,c,c+1,2c,2c+1} x chunk sizes {1,2,127,128,129,4096,65536}; W = timestamp accumulation over 1..4 (thorough 1..5) message starts on one chunk stream (cs 7): type 0 with timestamps {0, 1, 0xFFFFFE, 0xFFFFFF, 2^31-2*0xFFFFFE, 2^31-300, 2^31-2, 2^31-1, 2^31} x type 1 and type 2 with plain deltas {0, 1, 0x80, 0x100, 0xFFFFFE} and extended deltas {0xFFFFFF, 0x1000000, 2^31-300} x type 3 message start (delta re-added, repeatable), all messages of a trace single-chunk (1 byte) or multi-chunk (129 bytes = 2 chunks; thorough also 300 bytes = 3 chunks) with the type-3 continuation chunks in between, so that 0xFFFFFF and 2^31 are crossed by every header type after an extended and after a plain previous header (quick: <=4 starts, single-chunk - also with 1-byte reads - and 2-chunk; thorough: <=5 starts single-chunk with 1-byte reads, <=5 starts 2-chunk, <=4 starts 3-chunk); Z = zero-length messages and header compression: on 1..3 subject chunk streams (cs 5, cs 2, cs 70 in 2-byte form) every message start takes its length from {0, 1, c, c+1, 2c} (c = chunk size in force: 128, thorough also 2 after a Set Chunk Size prefix) at every position including the first message of the chunk stream, with every header type legal there (type 0 always; type 1 with any length once the chunk stream has carried a chunk; type 2 and 3 when the length repeats - after an empty message a type-2/3 start is again an empty message), the subjects' chunks interleaved with each other and with the three chunks of one 2c+1-byte message of a background chunk stream (cs 11; thorough also cs 12) (quick: 1 subject <=4 chunks with 1-byte reads and illegal continuations for each of the 3 subjects, each subject alone <=5 chunks, 2 subjects (cs 5 + cs 70, cs 5 + cs 2) <=4 chunks, 3 subjects <=3 chunks; thorough: 1 subject <=5 chunks with 1-byte reads and illegal continuations, 1 subject + 2 background streams <=6 chunks, 2 subjects <=5 chunks, 3 subjects <=4 chunks, chunk size 2 with 1 subject <=5 and 2 subjects <=4 chunks); a deviating Z trace is keyed decode/<what the first chunk the reader deviates at is: fmtN-start-after-only-empty-messages, fmtN-start-after-empty-message, empty-message-fmtN, else plain>. Every trace prefix is fed to a fresh real Protocol (whole and 1-byte reads) and its ReadMessage sequence compared with the chunker's bookkeeping (timestamps after reduction to 31 bits; a returned timestamp >= 2^31 is reported under timestamp-31bit/<header type of that message's first chunk>; a trace that uses an extended delta or a type-3 message start after an extended header and deviates is compared with the reference de-chunker in its documented extended-field-is-absolute reading: equal = the known finding decode/<features>, different = decode-other/<features>); at every node each illegal continuation (fmt 0 / changed length inside an unfinished message, fresh chunk stream with fmt 1/2/3, and the librtmp cs-2 fmt-1 form which must be accepted) is appended. state = abstract chunker state; transition = one chunk. " + ruleM)
 	c.Assume("timestamps compared after reduction to 31 bits", "type-1/2 headers inside an unfinished message and Abort messages are not generated", "the extended-timestamp field of a type-3 chunk repeats the value of the last type 0/1/2 header of its chunk stream", "a timestamp delta that carries the 32-bit timestamp past 2^31 or 2^32 is a legal forward step (RTMP timestamps roll over); only the 31-bit reduction of the result is compared")
 	h := &harness{c: c}
 	dT, dH, dB, dI, dL := 3, 3, 3, 5, 4
@@ -612,6 +659,9 @@ func run(c *hl.Ctx) {
 	before := c.Count("evaluations")
 	h.runZ()
 	c.Add("evaluations_family_Z", c.Count("evaluations")-before)
+	before = c.Count("evaluations")
+	h.runM()
+	c.Add("evaluations_family_M", c.Count("evaluations")-before)
 	if c.Shard == 0 {
 		n := newNode().apply(Move{K: "start", CS: 3, Form: 1, Fmt: 0, Field: 26, Len: 1, Type: 8, Sid: 1}).apply(Move{K: "start", CS: 3, Form: 1, Fmt: 3, Len: 1, Type: 8, Sid: 1})
 		c.Sample(map[string]interface{}{"family": "T", "moves": fmt.Sprint(n.moves), "wire": hl.Hex(n.wire), "expected_timestamps": []uint32{n.expect[0].Timestamp, n.expect[1].Timestamp}})
@@ -623,11 +673,22 @@ func replay(c *hl.Ctx, raw json.RawMessage) {
 		Moves   []Move `json:"moves"`
 		OneByte bool   `json:"one_byte"`
 		Neg     bool   `json:"neg"`
+		Many    *mCase `json:"many"`
+		Bad     *Move  `json:"bad"`
 	}
 	if err := json.Unmarshal(raw, &cs); err != nil {
 		panic(err)
 	}
 	h := &harness{c: c}
+	if cs.Many != nil {
+		n := buildMany(*cs.Many)
+		if cs.Neg {
+			h.evaluateNeg(n, *cs.Bad, cs.Bad.K == "librtmp")
+			return
+		}
+		h.evaluate(n, cs.OneByte)
+		return
+	}
 	n := newNode()
 	last := len(cs.Moves)
 	if cs.Neg {
